@@ -237,8 +237,8 @@ func lpSpaces(th bool) []lpSpace {
 		lpSpace{m: 2, n: 3, alpha: w, strideA: 1, basisStride: 1, thorough: true},
 		lpSpace{m: 2, n: 4, alpha: w, strideA: 1, basisStride: 5, thorough: true},
 		lpSpace{m: 3, n: 3, alpha: q, strideA: 1, basisStride: 1, thorough: true},
-		lpSpace{m: 3, n: 4, alpha: q, strideA: 13, basisStride: 5, thorough: true},
-		lpSpace{m: 3, n: 5, alpha: q, strideA: 997, basisStride: 11, thorough: true},
+		lpSpace{m: 3, n: 4, alpha: q, strideA: 29, basisStride: 5, thorough: true},
+		lpSpace{m: 3, n: 5, alpha: q, strideA: 2503, basisStride: 11, thorough: true},
 	)
 	return out
 }
